@@ -637,6 +637,9 @@ class BusAuthenticator :
             self.state = 'WaitingForBegin'
 
         elif status == 'CONTINUE':
+            if isinstance(challenge, str):
+                # EXTERNAL continues with an empty (text) challenge
+                challenge = challenge.encode('ascii')
             self.sendAuthMessage(b'DATA ' + binascii.hexlify(challenge))
             self.state = 'WaitingForData'
 
